@@ -43,7 +43,7 @@ PROPERTIES = {
         "assumptions": ["R2 sequential; Drop::drop extracted as drop_impl (R9)"],
     },
     "C06": {
-        "units": ["bar_draw", "c07_position", "pins_bar"],
+        "units": ["bar_draw", "c07_position", "pins_bar", "c16_tabs", "pins_multi"],
         "level": "proof",
         "explanation": "Every draw-path function carries the frame clause 'hidden target => the count of terminal operations is unchanged' (ProgressDrawTarget::drawable returns None for Hidden and for a Term that is not a TTY; a member of a hidden MultiProgress goes through the MultiHandle whose contract keeps the count), and the logical-state postconditions (position, length, message, prefix, finished status) never mention the target, so they are the same for hidden and visible bars.",
         "level_text": "Deductive proof (Verus): silence as a frame condition on every function of the draw path, state equivalence by construction of the contracts.",
@@ -162,7 +162,8 @@ PROPERTIES = {
         "assumptions": ["R10: one model terminal type; R2 &self -> &mut self; R3 loop desugarings; R11 derived comparisons field-wise"],
     },
     "C14": {
-        "units": ["c14_style"],
+        "units": ["c14_style", "c12_padding", "c13_bar", "c13_format_bar", "format_state"],
+        "safety_units": ["c12_padding", "c13_bar", "c13_format_bar", "format_state"],
         "level": "proof",
         "explanation": "ProgressStyle::{new, tick_chars, tick_strings, progress_chars, template, with_template} extracted and verified to establish the type invariant style_wf (>= 2 tick strings, >= 2 progress characters of one common width >= 1) or to reject explicitly; get_tick_str / get_final_tick_str are index- and remainder-safe under style_wf for every tick count.",
         "level_text": "Deductive proof (Verus) that every builder either panics explicitly (assert!) or returns a style satisfying the invariant under which every index, remainder and division site of the renderers is safe, for all inputs and all tick counts; a style that is accepted but cannot be rendered shows up as a failed builder postcondition.",
@@ -243,21 +244,24 @@ FALLBACK = {
                  ("multi_logs", ["C03"], "see multi_state"),
                  ("bar_frames", ["C05"], "400 ordinary updates paint at most 20 + rate*T + 1 frames (6 position/length pairs x 2 rates)"),
                  ("bar_hidden", ["C06"], "getters of a hidden bar vs a visible bar after 2 operations + 6 finishing / reset variants: 726 histories"),
-                 ("io_fail_bar", ["C18"], "every ProgressBar call under a terminal failing after 0 / 1 / 3 / 8 / 20 operations")],
+                 ("io_fail_bar", ["C18"], "every ProgressBar call under a terminal failing after 0 / 1 / 3 / 8 / 20 operations"),
+                 ("io_fail_state", ["C18"], "MultiProgress::println / clear report the error (3 histories incl. a reaped dropped bar); getters after every pair of 10 operations equal those on a working terminal")],
     "draw_to_term": [("bar_screen", ["C01", "C03", "C19"], "as above (wrapping messages and printed lines exercise the row accounting)"),
                      ("multi_finish", ["C04", "C19"], "finished bars of a MultiProgress stay, in order, for every finish and drop order of three bars")],
     "multi_state": [("multi_logs", ["C03", "C02"], "lines printed through the MultiProgress or a member bar ('' / text / two lines) after each of 3 operations out of 6, three unfinished bars: 1944 states"),
                     ("multi_rate", ["C05"], "see bar_draw"),
                     ("multi_order", ["C02"], "documented order after up to 5 add / insert / insert_from_back / insert_before / insert_after / remove operations: 13204 states"),
                     ("multi_finish", ["C04", "C02", "C19", "C03"], "finished bars of a MultiProgress (one-row and wrapping) stay, in order, for every finish and drop order of three bars"),
-                    ("io_fail_multi", ["C18"], "MultiProgress calls under a failing terminal")],
+                    ("io_fail_multi", ["C18"], "MultiProgress calls under a failing terminal"),
+                    ("io_fail_state", ["C18"], "see bar_draw")],
     "c07_position": [("bar_hidden", ["C06", "C07"], "getters after operation histories, hidden vs visible")],
     "c17_adaptors": [("iter_adaptors", ["C17"], "external / reverse / internal iteration (8 modes x 3 lengths, second handle on the bar), Read with 5 chunk scripts x 3 buffer sizes incl. errors, read_exact, read_to_string, interleaved fill_buf / consume, 9 seeks x 2 bar offsets, Write / write_vectored with 4 chunk scripts")],
     "c13_format_bar": [("bar_cells", ["C13"], "{bar:N} geometry for 6 widths x 9 lengths (up to 2^24) x 8 positions on the real f32 code")],
-    "c16_tabs": [("tabs_everywhere", ["C16"], "message / prefix / literal tabs after every sequence of 3 operations out of 7 (set_message, set_prefix, set_tab_width x2, set_style x2, finish_with_message) x 2 initial widths; custom keys writing a tab as str, char and format argument")],
+    "c16_tabs": [("tabs_everywhere", ["C16", "C06"], "message / prefix / literal tabs after every sequence of 3 operations out of 7 (set_message, set_prefix, set_tab_width x2, set_style x2, finish_with_message) x 2 initial widths; custom keys writing a tab as str, char and format argument")],
     "pins_bar": [("bar_screen", ["C01", "C03", "C04"], "see bar_draw"), ("bar_forced", ["C04", "C05", "C03", "C01"], "see bar_draw"),
                  ("bar_frames", ["C05"], "see bar_draw"), ("bar_hidden", ["C06"], "see bar_draw"), ("bar_reuse", ["C04"], "see bar_draw")],
-    "pins_multi": [("multi_order", ["C02"], "see multi_state"), ("multi_finish", ["C04", "C02", "C03"], "see multi_state"), ("multi_logs", ["C03", "C02"], "see multi_state")],
+    "pins_multi": [("multi_removed", ["C06"], "a bar removed from its MultiProgress (unfinished / finished / abandoned / cleared) performs no terminal operation on six later calls"),
+                   ("multi_order", ["C02"], "see multi_state"), ("multi_finish", ["C04", "C02", "C03"], "see multi_state"), ("multi_logs", ["C03", "C02"], "see multi_state")],
     "pins_iter": [("iter_adaptors", ["C17"], "see c17_adaptors")],
     "c09_estimator": [("est_laws", ["C09"], "finite / non-negative / bounded / steady-exact / reset-forgets on the real f64 estimator: 5 rates x 6 gap patterns x 40 samples")],
     "c14_style": [("style_build", ["C14"], "builders reject or produce a renderable style (family of tick/progress strings)")],
@@ -266,7 +270,8 @@ FALLBACK = {
     "format_state": [("render_keys", ["C11"], "every documented key against the getters through the public formatters, 9 position/length pairs x 3 statuses x 4 tick counts; custom key shadowing"),
                      ("render_wide", ["C12", "C13", "C11"], "lines with wide_bar / wide_msg fill exactly the terminal width (4 widths x 7 templates)"),
                      ("render_lines", ["C10", "C11", "C01"], "frame line structure for 8 templates x 9 messages with embedded / trailing newlines")],
-    "c12_padding": [("pad_field ascii", ["C12"], "padding / truncation on printable ASCII, widths 0..12")],
+    "c12_padding": [("pad_field ascii", ["C12"], "padding / truncation on printable ASCII, widths 0..12"),
+                    ("pad_no_panic", ["C12", "C14"], "the field formatter never panics: 13 texts (double-width, combining, emoji, ANSI) x widths 0..10 x 3 alignments x truncate")],
     "c15_formatters": [("human_count", ["C15"], "digit grouping on boundary values"),
                        ("formatted_duration", ["C15"], "HH:MM:SS on boundary durations"),
                        ("human_float", ["C15"], "HumanFloatCount shape on boundary values"),
